@@ -135,6 +135,35 @@ void StructSyncManager::sync_direct_access_from_struct_value(
                     total_size = 0;
                 }
 
+                // 文字列配列かどうかの判定。
+                // sync_struct_members_from_direct_access は数値配列でも
+                // array_strings を配列サイズ分の空文字列にリサイズするため、
+                // 「array_strings が空でない」だけでは文字列配列とみなさない
+                // （int[2] の要素変数が TYPE_STRING / 値 0 になっていた）
+                auto has_non_empty_string =
+                    [](const std::vector<std::string> &strings) {
+                        for (const auto &str : strings) {
+                            if (!str.empty()) {
+                                return true;
+                            }
+                        }
+                        return false;
+                    };
+                const bool has_numeric_storage =
+                    !member_value.array_values.empty() ||
+                    !member_value.multidim_array_values.empty();
+                const bool has_string_storage =
+                    !member_value.array_strings.empty() ||
+                    !member_value.multidim_array_strings.empty();
+                const bool treat_as_string =
+                    TypeHelpers::isString(member_value.type) ||
+                    member_value.type ==
+                        static_cast<TypeInfo>(TYPE_ARRAY_BASE + TYPE_STRING) ||
+                    member_value.current_type == TYPE_STRING ||
+                    has_non_empty_string(member_value.array_strings) ||
+                    has_non_empty_string(member_value.multidim_array_strings) ||
+                    (has_string_storage && !has_numeric_storage);
+
                 for (int i = 0; i < total_size; ++i) {
                     std::string element_name =
                         qualified_name + "[" + std::to_string(i) + "]";
@@ -143,11 +172,6 @@ void StructSyncManager::sync_direct_access_from_struct_value(
                     element_var.is_const = dest_member.is_const;
                     element_var.is_unsigned = dest_member.is_unsigned;
 
-                    bool treat_as_string =
-                        (TypeHelpers::isString(member_value.type) ||
-                         member_value.current_type == TYPE_STRING ||
-                         !member_value.array_strings.empty() ||
-                         !member_value.multidim_array_strings.empty());
 
                     if (treat_as_string) {
                         element_var.type = TYPE_STRING;
